@@ -47,6 +47,16 @@ CLAIMS = {
         "Weakest form: linearizability is NOT decided. Decides structural necessary conditions of 'no lost / duplicated signal': wake outside the lock, set-flag-then-recheck before register, HAS_WAITERS clear discipline, cancel forwards-or-restores decided under the lock, manual-set publish/advance/drain shape, release/acquire on signal publication/consumption, awaiter-list discipline (generation, lifecycle). Only the thread-safe pair is covered.",
         "Trusted: rustc nightly MIR, factgen extraction, constants IDLE/SIGNALED/HAS_WAITERS as evaluated, user-code/guard classification.",
         "DESIGN.md section 3, C08"),
+    "C09": (
+        "MIR rules: backward slices for result provenance, field read/write census over the call graphs of take and take_all (no dead criterion), quota guard shape, loop rule for length-bounded accumulation (bulk additions must be sized by the remainder), call-graph field-read rule for builder-time exclusion passes, entry-API merge shape of the candidate map",
+        "Narrow: decides provenance from the filtered candidate map, that every configured criterion is read, the quota guards, bounded accumulation, independence of filter passes from later-changeable criteria, total per-region grouping. The bounded-accumulation violation on the pinned tree (prefer-same over-selects) was genuine, reproduced and repaired by a fix: commit. Satisfiability/optimality for all topologies is not decided.",
+        "Trusted: rustc nightly MIR, factgen extraction, method-name recognition of Vec/HashMap/itertools calls.",
+        "DESIGN.md section 3, C09"),
+    "C10": (
+        "MIR rules: FFI length/pointer provenance by backward slice to one CpuMask, who-may-call chain for the affinity syscall, exactly-one bookkeeping call per path with dominating-comparison classification of its form, thread_local / hardware_id keyed access census, fresh-mask provenance",
+        "Narrow: the OS effect is NOT decided. Decides FFI buffer agreement, the single door to sched_setaffinity, pin bookkeeping on every path with the right form, per-thread per-hardware keyed state and pin-before-entry in spawn_threads, and that the mask given to the kernel is built fresh from exactly the given processors.",
+        "Trusted: rustc nightly MIR, factgen extraction; Linux build of many_cpus_impl (cfg(target_os = linux)).",
+        "DESIGN.md section 3, C10"),
     "C12": (
         "guard-liveness x user-code classification over the linked crate (incl. closures run under LocalKey::with_borrow*), call-graph reachability of thread::current() from Drop of Send reference types (Send decided by the trait matrix of a probe crate), guard liveness at the reference-count test, entry()/insert discipline on the registries",
         "Decides structural necessary conditions only: no user code under a registry lock / thread-local registry borrow (first access with nested linked variables terminates), per-thread cleanup of Send references keyed by origin and decided under the lock, confinement witnesses, create-outside/insert-under-lock with occupied re-check, first registration wins. Two defects found by R1 on the pinned tree were genuine, reproduced and repaired by two fix: commits; R2/R3 on RefSync are genuine, reproduced and recorded as known findings (repair is a design change). Exactly-one-family under all racing first accesses is not decided.",
